@@ -2,7 +2,8 @@
 
 Every function renders a complete document with tests.testing_utils.render_pages and observes
   * the placement: the `children_positions` argument of weasyprint.layout.grid._resolve_tracks_sizes
-    (dict child box -> (x, y, width, height) in track units), captured by wrapping that function,
+    (dict child box -> (x, y, width, height) in track units, counted from the first implicit track), captured by
+    wrapping that function,
   * the track sizes it returns (first component of each [base, growth] pair),
   * the rectangles of the rendered children of the GridBox.
 Floats are returned as exact 'numerator/denominator' strings (Fraction(float))."""
@@ -23,15 +24,21 @@ def _patch():
         return
     orig = G._resolve_tracks_sizes
 
-    def wrapped(sizing_functions, box_size, children_positions, implicit_start, direction, gap, context,
-                containing_block, orthogonal_sizes=None):
-        if containing_block.element is not None and containing_block.element.get('id') == 'c':
-            _CAP['pos'] = {c.element.get('id'): list(v) for c, v in children_positions.items()}
-            _CAP['n' + direction] = len(sizing_functions)
-            _CAP['box' + direction] = box_size
-        res = orig(sizing_functions, box_size, children_positions, implicit_start, direction, gap, context,
-                   containing_block, orthogonal_sizes)
-        if containing_block.element is not None and containing_block.element.get('id') == 'c':
+    import inspect
+    sig = inspect.signature(orig)
+
+    def wrapped(*args, **kwargs):
+        ba = sig.bind(*args, **kwargs)
+        a = ba.arguments
+        containing_block, direction = a['containing_block'], a['direction']
+        mine = containing_block.element is not None and containing_block.element.get('id') == 'c'
+        if mine:
+            # children_positions: areas counted from the first implicit track (since a7930c3)
+            _CAP['pos'] = {c.element.get('id'): list(v) for c, v in a['children_positions'].items()}
+            _CAP['n' + direction] = len(a['sizing_functions'])
+            _CAP['box' + direction] = a['box_size']
+        res = orig(*args, **kwargs)
+        if mine:
             _CAP['sizes' + direction] = [s for s, _ in res]
         return res
     G._resolve_tracks_sizes = wrapped
